@@ -7,13 +7,15 @@ namespace Tcs
 theorem sqlSrc_addVersion (cl v p : Uuid) (seg : Bytes) (s : Sql) :
     SqlGen.exec cl (.addVersion v p seg) (encSql s) =
       ((Sql.exec cl (.addVersion v p seg) s).1, encSql (Sql.exec cl (.addVersion v p seg) s).2) := by
-  have hnr : newRow [Col.version_id, Col.client_id, Col.parent_version_id, Col.history_segment] [0, 1, 2, 3]
-      [SqlVal.id v, SqlVal.id cl, SqlVal.id p, SqlVal.blob seg] = encV ⟨v, cl, p, seg⟩ := by
-    funext c; cases c <;> simp [newRow, lookupCol, param, encV]
   have hkey : ∀ r : VersionRow, sqlEq (encV r Col.version_id) (SqlVal.id v) = decide (r.versionId = v) := by
     intro r; simp [sqlEq, encV]
   simp only [SqlGen.exec, SqlSrc.addVersion, run1, execStmt, RowDb.get, RowDb.set, encSql, List.map_cons, List.map_nil, bindP, Sql.exec,
-    pkOf, hnr]
+    pkOf]
+  -- the inserted row, whatever the order in which the INSERT lists its columns
+  generalize hnr : newRow _ _ _ = nr
+  have hnr' : nr = encV ⟨v, cl, p, seg⟩ := by
+    rw [← hnr]; funext c; cases c <;> simp [newRow, lookupCol, param, encV]
+  subst hnr'
   have hk : encV ⟨v, cl, p, seg⟩ Col.version_id = SqlVal.id v := rfl
   rw [hk, any_map_enc encV s.versions _ (fun r => decide (r.versionId = v)) hkey]
   cases hany : s.versions.any (fun r => decide (r.versionId = v)) with
